@@ -175,7 +175,11 @@ class NumpyBackendProvider(BackendProvider):
             arg_src = self._ir_to_source(arg)
             if arg_src is None:
                 return None
-            method = {'+': 'np.cumsum', '*': 'np.cumprod'}.get(op)
+            # ufunc.accumulate works along axis 0 like the interpreter's Scan-Over
+            # (np.cumsum/np.cumprod flatten rank >= 2 operands and turn an atom
+            # into a one-element list); it raises for an atom, which the
+            # interpreter then handles.
+            method = {'+': 'np.add.accumulate', '*': 'np.multiply.accumulate'}.get(op)
             if method is None:
                 return None  # |\ and &\ not supported in numpy
             return f'{method}({arg_src})'
